@@ -81,15 +81,20 @@ class Observation:
 
 def write_tree(root: Path, files: dict, modes: dict | None = None):
     root.mkdir(parents=True, exist_ok=True)
+    later = []
     for rel, data in files.items():
         p = root / rel
         p.parent.mkdir(parents=True, exist_ok=True)
-        if isinstance(data, (tuple, list)) and data and data[0] == "symlink":
+        if isinstance(data, (tuple, list)) and data and data[0] == "hardlink":
+            later.append((p, root / data[1]))  # a second name of a regular file of the same tree
+        elif isinstance(data, (tuple, list)) and data and data[0] == "symlink":
             os.symlink(data[1], p)
         elif isinstance(data, (tuple, list)) and data and data[0] == "dir":
             p.mkdir(parents=True, exist_ok=True)
         else:
             p.write_bytes(data)
+    for p, target in later:
+        os.link(target, p)
     for rel, m in (modes or {}).items():
         os.chmod(root / rel, m)
 
